@@ -352,6 +352,8 @@ func runC12(w *World, r *Report) {
 	hrRetryAfterTypeLiteral(w, r, "R6")
 	hrEarlyResponseMessage(w, r, "R6")
 	hrFoldOrder(w, r, "R6")
+	hrDeepCopyAlwaysCopies(w, r, "R6")
+	hrEarlyResponseBodyAlwaysSet(w, r, "R6")
 	hrStoredResponseOwnsItsHeaders(w, r, "R6")
 	hrCfgURLVariable(w, r, "R3")
 	hrCfgEarlyResponseNotFedBack(w, r, "R6")
